@@ -13,17 +13,17 @@ import (
 )
 
 var mathNames = [11]string{
-	"\u09aa\u09b0\u09ae\u09ae\u09be\u09a8", // 0 abs
-	"\u09ac\u09b0\u09cd\u0997\u09ae\u09c2\u09b2", // 1 sqrt
-	"\u09b0\u09be\u0989\u09a8\u09cd\u09a1", // 2 round
-	"\u09b8\u09be\u0987\u09a8",             // 3 sin
-	"\u0995\u09b8\u09be\u0987\u09a8",       // 4 cos
-	"\u099f\u09cd\u09af\u09be\u09a8",       // 5 tan
-	"\u0998\u09be\u09a4",                   // 6 pow
+	"\u09aa\u09b0\u09ae\u09ae\u09be\u09a8",                   // 0 abs
+	"\u09ac\u09b0\u09cd\u0997\u09ae\u09c2\u09b2",             // 1 sqrt
+	"\u09b0\u09be\u0989\u09a8\u09cd\u09a1",                   // 2 round
+	"\u09b8\u09be\u0987\u09a8",                               // 3 sin
+	"\u0995\u09b8\u09be\u0987\u09a8",                         // 4 cos
+	"\u099f\u09cd\u09af\u09be\u09a8",                         // 5 tan
+	"\u0998\u09be\u09a4",                                     // 6 pow
 	"\u09b8\u09b0\u09cd\u09ac\u09a8\u09bf\u09ae\u09cd\u09a8", // 7 min
-	"\u09b8\u09b0\u09cd\u09ac\u09cb\u099a\u09cd\u099a", // 8 max
-	"\u0995\u09cd\u09b2\u0995",             // 9 clock
-	"\u09b2\u09c7\u09a8",                   // 10 len
+	"\u09b8\u09b0\u09cd\u09ac\u09cb\u099a\u09cd\u099a",       // 8 max
+	"\u0995\u09cd\u09b2\u0995",                               // 9 clock
+	"\u09b2\u09c7\u09a8",                                     // 10 len
 }
 
 func mathArity(which int) int {
